@@ -1,6 +1,7 @@
 package main
 
 import (
+	"go/token"
 	"fmt"
 	"go/constant"
 	"go/types"
@@ -147,6 +148,104 @@ func termHas(t *Term, pred func(*Term) bool) bool { return t.contains(pred) }
 
 func runC01Rest(c *Ctx, isTA *ssa.Function) {
 	p, fx := c.P, c.Fx
+	// O3 (GHOST): "≤ in every dimension" is sticky. In each LessEqual of the resource types, ANY dimension in which
+	// the receiver exceeds the argument — a direct comparison, a dimension missing from the argument's map, or a
+	// nested LessEqual that answered false — makes the answer false, for every number of scalar / MIG dimensions and
+	// whatever form the comparison loop takes.
+	for _, le := range []struct{ typ, name string }{
+		{"BaseResource", "LessEqual"}, {"GpuResourceRequirement", "LessEqual"}, {"ResourceRequirements", "LessEqual"},
+		{"ResourceRequirements", "LessEqualResource"}, {"Resource", "LessEqual"}, {"ResourceVector", "LessEqual"},
+	} {
+		fn := p.Func(pkgResInfo, le.typ, le.name)
+		if fn == nil || len(fn.Params) < 2 {
+			c.Undec("O3", "GHOST", pkgResInfo+"."+le.typ+"."+le.name, 0, "not found")
+			continue
+		}
+		side := func(v ssa.Value) int {
+			// 0 = rooted at the receiver, 1 = rooted at the argument, -1 = neither / both
+			t := termOf(v)
+			switch rootParam(t) {
+			case 0:
+				return 0
+			case 1:
+				return 1
+			}
+			// elements of a range over the receiver's / argument's maps
+			r0 := t.contains(func(x *Term) bool { return x.Op == "param" && x.V == ssa.Value(fn.Params[0]) })
+			r1 := t.contains(func(x *Term) bool { return x.Op == "param" && x.V == ssa.Value(fn.Params[1]) })
+			if r0 && !r1 {
+				return 0
+			}
+			if r1 && !r0 {
+				return 1
+			}
+			return -1
+		}
+		rangeSide := map[ssa.Value]int{}
+		for _, in := range instrsIn(fn, func(in ssa.Instruction) bool { _, ok := in.(*ssa.Range); return ok }) {
+			rg := in.(*ssa.Range)
+			if sd := side(rg.X); sd >= 0 {
+				rangeSide[rg] = sd
+			}
+		}
+		elemSide := func(v ssa.Value) int {
+			if sd := side(v); sd >= 0 {
+				return sd
+			}
+			if ex, ok := v.(*ssa.Extract); ok {
+				if nx, ok := ex.Tuple.(*ssa.Next); ok {
+					if sd, ok := rangeSide[nx.Iter]; ok {
+						return sd
+					}
+				}
+				if lk, ok := ex.Tuple.(*ssa.Lookup); ok {
+					return side(lk.X)
+				}
+			}
+			return -1
+		}
+		event := func(in ssa.Instruction) (ssa.Value, bool, bool) {
+			switch x := in.(type) {
+			case *ssa.BinOp:
+				if isBoolType(x.X.Type()) {
+					return nil, false, false
+				}
+				sx, sy := elemSide(x.X), elemSide(x.Y)
+				if !((sx == 0 && sy == 1) || (sx == 1 && sy == 0)) {
+					return nil, false, false
+				}
+				op := x.Op
+				if sx == 1 { // argument on the left: flip
+					op = flipCmp(op)
+				}
+				switch op {
+				case token.GTR:
+					return x, true, true
+				case token.LEQ:
+					return x, false, true
+				}
+			case *ssa.Extract:
+				// a dimension of the receiver that the argument's map does not have
+				if lk, ok := x.Tuple.(*ssa.Lookup); ok && lk.CommaOk && x.Index == 1 && side(lk.X) == 1 {
+					return x, false, true
+				}
+			case *ssa.Call:
+				// a helper comparing one dimension with a tolerance (lessEqualWithMinDiff(g.portion, gg.portion, ε))
+				if cal := calleeOf(x); cal != nil && strings.HasPrefix(cal.Name(), "lessEqual") && len(x.Call.Args) >= 2 &&
+					elemSide(x.Call.Args[0]) == 0 && elemSide(x.Call.Args[1]) == 1 {
+					return x, false, true
+				}
+			}
+			return nil, false, false
+		}
+		okG, und, desc := p.ghostForall(fn, event, triF)
+		key := funcKey(fn) + ": any exceeding or missing dimension makes the answer false"
+		if und != "" {
+			c.Undec("O3", "GHOST", key, fn.Pos(), und)
+			continue
+		}
+		c.Check(okG, "O3", "GHOST", key, fn.Pos(), desc, "the comparison can answer 'fits' although the receiver exceeds the argument in some dimension (the verdict is not sticky over the dimensions, or a nested comparison is ignored): a request larger than what a node has idle in that dimension is accepted — "+desc)
+	}
 	baseLE := c.Anchor("O3", pkgResInfo, "BaseResource", "LessEqual")
 	lessEqRes := c.Anchor("O3", pkgResInfo, "ResourceRequirements", "LessEqualResource")
 	if baseLE == nil || lessEqRes == nil {
